@@ -2,7 +2,7 @@
 // unit names: s_<f>            scalar overload, inputs = the arguments
 //             v_<f>_<mask>_<L> vector overload; bit k of mask set <=> argument k is a vec<L>, else a scalar
 //             (arguments laid out consecutively: a vector takes L variables, a scalar one)
-// NPARTS 7
+// NPARTS 8
 #include "common.hpp"
 #include <glm/gtx/component_wise.hpp>
 using namespace symt;
@@ -26,6 +26,14 @@ template<int L, class T> struct Arg<L, T, true> { using type = glm::vec<L, T, gl
 #define V3L(F, M, L) add_unit(nm("v_" #F, {M, L}), Arg<L, float, (M & 1) != 0>::n + Arg<L, float, (M & 2) != 0>::n + Arg<L, float, (M & 4) != 0>::n, L, [](auto const* x, auto* o) { using T = TY(o); \
     using A = Arg<L, T, (M & 1) != 0>; using B = Arg<L, T, (M & 2) != 0>; using C = Arg<L, T, (M & 4) != 0>; stv(o, glm::F(A::ld(x), B::ld(x + A::n), C::ld(x + A::n + B::n))); });
 #define V3(F, M) V3L(F, M, 1) V3L(F, M, 2) V3L(F, M, 3) V3L(F, M, 4)
+
+#define S3N(N, F) add_unit("s_" N, 3, 1, [](auto const* x, auto* o) { o[0] = glm::F(x[0], x[1], x[2]); });
+#define V3LN(N, F, M, L) add_unit(nm("v_" N, {M, L}), Arg<L, float, (M & 1) != 0>::n + Arg<L, float, (M & 2) != 0>::n + Arg<L, float, (M & 4) != 0>::n, L, [](auto const* x, auto* o) { using T = TY(o); \
+    using A = Arg<L, T, (M & 1) != 0>; using B = Arg<L, T, (M & 2) != 0>; using C = Arg<L, T, (M & 4) != 0>; stv(o, glm::F(A::ld(x), B::ld(x + A::n), C::ld(x + A::n + B::n))); });
+#define V3N(N, F, M) V3LN(N, F, M, 1) V3LN(N, F, M, 2) V3LN(N, F, M, 3) V3LN(N, F, M, 4)
+#define S4N(N, F) add_unit("s_" N, 4, 1, [](auto const* x, auto* o) { o[0] = glm::F(x[0], x[1], x[2], x[3]); });
+#define V4LN(N, F, L) add_unit(nm("v_" N, {15, L}), 4 * L, L, [](auto const* x, auto* o) { using T = TY(o); stv(o, glm::F(ldv<L, T>(x), ldv<L, T>(x + L), ldv<L, T>(x + 2 * L), ldv<L, T>(x + 3 * L))); });
+#define V4N(N, F) V4LN(N, F, 1) V4LN(N, F, 2) V4LN(N, F, 3) V4LN(N, F, 4)
 
 // operators: o = a OP b
 #define OPL(NAME, OP, M, L) add_unit(nm("op_" NAME, {M, L}), Arg<L, float, (M & 1) != 0>::n + Arg<L, float, (M & 2) != 0>::n, L, [](auto const* x, auto* o) { using T = TY(o); \
@@ -81,6 +89,22 @@ int main(int argc, char** argv) {
   add_unit(nm("op_preinc", {L}), L, 2 * L, [](auto const* x, auto* o) { using T = TY(o); auto a = ldv<L, T>(x); auto r = ++a; stv(o, r); stv(o + L, a); }); \
   add_unit(nm("op_postdec", {L}), L, 2 * L, [](auto const* x, auto* o) { using T = TY(o); auto a = ldv<L, T>(x); auto r = a--; stv(o, r); stv(o + L, a); });
   UNL(1) UNL(2) UNL(3) UNL(4)
+#endif
+#if IN_PART(7)
+  // ext twins (ext/scalar_common vs ext/vector_common): NaN-aware and n-ary selection, texture-coordinate wraps
+  S2(fmin) V2(fmin, 3) V2(fmin, 1)   S2(fmax) V2(fmax, 3) V2(fmax, 1)
+  // (all components are traced jointly, so the number of paths is the product over the components: the deeper selections stop at L = 3 / 2)
+  S3N("fmin3", fmin) V3LN("fmin3", fmin, 7, 1) V3LN("fmin3", fmin, 7, 2) V3LN("fmin3", fmin, 7, 3)
+  S3N("fmax3", fmax) V3LN("fmax3", fmax, 7, 1) V3LN("fmax3", fmax, 7, 2) V3LN("fmax3", fmax, 7, 3)
+  S4N("fmin4", fmin) V4LN("fmin4", fmin, 1) V4LN("fmin4", fmin, 2)   S4N("fmax4", fmax) V4LN("fmax4", fmax, 1) V4LN("fmax4", fmax, 2)
+  S3(fclamp) V3L(fclamp, 7, 1) V3L(fclamp, 7, 2) V3L(fclamp, 7, 3) V3L(fclamp, 1, 1) V3L(fclamp, 1, 2) V3L(fclamp, 1, 3)
+  // scalar min/max of 3 and 4 arguments exist twice (ext/scalar_common by value, gtx/extended_min_max by reference): pick each by its signature
+#define S3P(N, F, A) add_unit("s_" N, 3, 1, [](auto const* x, auto* o) { using T = TY(o); o[0] = static_cast<T (*)(A, A, A)>(&glm::F<T>)(x[0], x[1], x[2]); });
+#define S4P(N, F, A) add_unit("s_" N, 4, 1, [](auto const* x, auto* o) { using T = TY(o); o[0] = static_cast<T (*)(A, A, A, A)>(&glm::F<T>)(x[0], x[1], x[2], x[3]); });
+  S3P("min3", min, T) V3N("min3", min, 7)   S3P("max3", max, T) V3N("max3", max, 7)
+  S4P("min4", min, T) V4N("min4", min)   S4P("max4", max, T) V4N("max4", max)
+  S3P("gmin3", min, T const&) S3P("gmax3", max, T const&) S4P("gmin4", min, T const&) S4P("gmax4", max, T const&)
+  F1N("clampT", clamp) F1(repeat) F1(mirrorClamp) F1(mirrorRepeat)
 #endif
 #if IN_PART(6)
   // integer element types (int32 / uint32): component-wise functions against the scalar overload, operators against the
